@@ -27,10 +27,13 @@ CHECKS['C13'] = dict(
 CHECKS['C17'] = dict(
    text='Coq theorems for all strings: check_topdomain accepts exactly the declaratively specified domains (3..128 chars, label '
         'syntax, optional leading wildcard); query_datalen returns n exactly when the name splits at a label boundary into n data chars '
-        'and a case-insensitive (wildcard-aware) match of the domain, n unique, None exactly when no split matches. Limits are re-read '
-        'from the source; model tied to common.c by exhaustive small-string and random long-name correspondence plus an independent reference matcher.',
-   note='Trusts: C-locale tolower/isdigit (no setlocale in the source); the dispatch in iodined.c on the result is read, not modelled; '
-        'Coq kernel; translator; extraction; gcc.',
+        'and a case-insensitive (wildcard-aware) match of the domain, n unique, None exactly when no split matches; and the server dispatcher '
+        '(Server.tunnel_dns) treats a query as tunnel traffic exactly when query_datalen is Some n (n = 0 included: NS answered, tunnel types to the '
+        'handler), forwards it exactly when it is None and forwarding is configured, never both. Limits are re-read from the source; tied to common.c by '
+        'exhaustive small-string and random long-name correspondence plus an independent reference matcher, and to tunnel_dns of iodined.c by targeted '
+        'server histories (model per event + oracle from the property text).',
+   note='Trusts: C-locale tolower/isdigit (no setlocale in the source); at data length 0 a tunnel-type query is handled but produces no output, '
+        'so the observable there is the NS answer and forwarding; Coq kernel; translator; extraction; gcc.',
    technique='Coq proof (induction on reversed strings / label lists), differential correspondence, independent reference matcher',
    design='4/C17')
 CHECKS['C20'] = dict(
